@@ -15,7 +15,7 @@ LEVEL = "exploration"
 NEEDS_STUBS = True
 RULE = ("initial states drawn from merge.tool x diff.guitool in {unset, nbdime, meld} in the scope under test and, independently, in the other scope, difftool.prompt x mergetool.prompt in {unset, true, "
         "false}, unrelated keys, attributes file in {absent, unrelated rules with/without final newline, already nbdime's lines, "
-        "'*.ipynb diff=other'}, scope in {repository, global (scratch HOME / XDG_CONFIG_HOME, sometimes core.attributesfile)}; then every "
+        "'*.ipynb diff=other'}, scope in {repository, global (scratch HOME; XDG_CONFIG_HOME a directory / unset / empty; sometimes core.attributesfile)}; then every "
         "sequence of up to 3 real commands from {nbdime config-git, git-nbdiffdriver|git-nbmergedriver|git-nbdifftool|git-nbmergetool "
         "config} x {--enable, --disable} [--set-default] run as processes against real git. After every command: git config of both "
         "scopes, bytes of the attributes files and a hash tree of HOME and the repository are compared with the state before. "
@@ -63,6 +63,13 @@ class World:
         self.repo = os.path.join(root, "repo")
         self.env = dict(os.environ, HOME=self.home, XDG_CONFIG_HOME=self.xdg, GIT_CONFIG_NOSYSTEM="1")
         self.env.pop("GIT_CONFIG_GLOBAL", None)
+        # XDG_CONFIG_HOME: a directory, unset, or set but EMPTY (git and the XDG spec treat empty as unset:
+        # the global attributes file is then $HOME/.config/git/attributes)
+        self.xdg_mode = state.get("xdg", "dir")
+        if self.xdg_mode == "unset":
+            self.env.pop("XDG_CONFIG_HOME", None)
+        elif self.xdg_mode == "empty":
+            self.env["XDG_CONFIG_HOME"] = ""
         self.custom_attr = None
 
     def git(self, *a, check=True, cwd=None):
@@ -113,7 +120,11 @@ class World:
 
     def attr_path(self):
         if self.scope == "global":
-            return self.custom_attr or os.path.join(self.xdg, "git", "attributes")
+            if self.custom_attr:
+                return self.custom_attr
+            if self.xdg_mode == "dir":
+                return os.path.join(self.xdg, "git", "attributes")
+            return os.path.join(self.home, ".config", "git", "attributes")
         return os.path.join(self.repo, ".gitattributes")
 
     def config(self, flag):
@@ -260,7 +271,7 @@ def run_shard(spec):
             st = {"merge.tool": r.choice(tools3), "diff.guitool": r.choice(tools3), "difftool.prompt": r.choice([None, "true", "false"]),
                   "mergetool.prompt": r.choice([None, "true", "false"]),
                   "attributes": r.choice(["absent", "unrelated", "unrelated_nonl", "already", "other_driver"]),
-                  "custom_attributesfile": r.random() < 0.25,
+                  "custom_attributesfile": r.random() < 0.25, "xdg": r.choice(["dir", "dir", "unset", "empty"]),
                   "other:merge.tool": r.choice(tools3), "other:diff.guitool": r.choice(tools3)}
             states.append((r.choice(["repository", "global"]), st))
         seqs = None
@@ -310,6 +321,8 @@ def run_shard(spec):
             if changed_any and foreign:
                 col.nt(chash(scope, st, [list(c) for c in seq]))
                 col.count("scope:" + scope)
+                if scope == "global":
+                    col.count("global_scope_XDG_CONFIG_HOME:" + st.get("xdg", "dir"))
                 col.count("attributes_state:" + st["attributes"])
             if len(col.samples) < 2:
                 col.sample({"scope": scope, "initial": st, "sequence": [" ".join([c[0], c[1]] + (["--set-default"] if c[2] else [])) for c in seq],
